@@ -1,6 +1,7 @@
 package funcutil
 
 import (
+	"bytes"
 	"fmt"
 	"sort"
 	"strconv"
@@ -340,4 +341,49 @@ func Selftest_pointers(a, b, c int64) int64 {
 	m := map[string]*stPoint{"k": np}
 	m["k"].Y = 9
 	return acc + np.X + np.Y + arr[1] + arr[3] + int64(len(ap)) + int64(cap(sl))
+}
+
+type stNode int
+
+func (n stNode) String() string { return fmt.Sprintf("n%d", n) }
+
+type stSet []int
+
+func (s stSet) String() string {
+	var buf bytes.Buffer
+	buf.WriteByte('{')
+	for _, x := range s {
+		if buf.Len() > 1 {
+			buf.WriteByte(' ')
+		}
+		fmt.Fprintf(&buf, "%d", x)
+	}
+	buf.WriteByte('}')
+	return buf.String()
+}
+
+// formatted output: verbs that do / do not consult String(), Fprint* into buffers and builders, map keyed by the
+// printed form of a set (the idiom of the pointer analysis' hash-value numbering)
+func Selftest_fmt_writers(a, b, c int64) int64 {
+	n := stNode(stSmall(a, 50))
+	s1 := fmt.Sprintf("%d|%v|%s|%5d|%x", n, n, n, n, int(n))
+	var sb strings.Builder
+	fmt.Fprintf(&sb, "%s-%d;", s1, stSmall(b, 9))
+	fmt.Fprint(&sb, stSmall(c, 7), "x", n)
+	fmt.Fprintln(&sb, "end", stSmall(a^b, 11))
+	labels := map[string]int{}
+	sets := []stSet{{stSmall(a, 3), 5}, {stSmall(b, 3), 5}, {stSmall(c, 3), 5}, {1}, {}}
+	for i, s := range sets {
+		if _, ok := labels[s.String()]; !ok {
+			labels[s.String()] = i + 1
+		}
+	}
+	var h int64
+	for _, ch := range sb.String() {
+		h = h*31 + int64(ch)
+	}
+	for _, s := range sets {
+		h = h*7 + int64(labels[s.String()])
+	}
+	return h*13 + int64(len(labels))
 }
